@@ -316,6 +316,10 @@ func (this *ClientImpl) getAccount(accData *AccountData, passwd []byte) (*Accoun
 	}
 	publicKey := privateKey.Public()
 	addr := types.AddressFromPubKey(publicKey)
+	if addr.ToBase58() != accData.Address {
+		// unauthenticated legacy (aes-256-ctr) keys "decrypt" under any password: the key must be the account's
+		return nil, fmt.Errorf("decrypt private key error: key does not match account address")
+	}
 	scheme, err := s.GetScheme(accData.SigSch)
 	if err != nil {
 		return nil, fmt.Errorf("signature scheme error:%s", err)
